@@ -40,10 +40,6 @@ def spec_for(qq, qfault=None, size=0, payload=None, world=None, exact_pad=None):
     return s
 
 
-def trace_header_len():
-    return 270
-
-
 def gen_specs(ctx, baseline):
     """baseline = (number of writes, index of the data close, ...) measured on a fault-free run"""
     rng, quick = ctx.rng, ctx.quick()
@@ -57,7 +53,6 @@ def gen_specs(ctx, baseline):
     for sig in (9, 11, 15, 6):
         add(spec_for(['all all -%d' % sig, 'all all 0']), 'signal-after-all/%d' % sig)
     exits = [0, 1, 10, 11, 31, 40, 41, 91, 120, 255, -9, -11]
-    small = dataq.payload_bytes(payload_spec(0))
     qlen = 330                                   # bytes of the small message in the queue (about)
     # where the child stops reading, small message: every k, every j
     ks = range(0, qlen, 1 if not quick else 7)
